@@ -289,19 +289,31 @@ def exec_accepted(case):
     import dawgie.tools.compliant as comp
 
     out = core.Outcome()
+    # the package may declare several events; the candidate under test sits
+    # at a generated position among well-formed ones
+    cands = [case['cand']]
+    pos = 0
+    if case.get('others'):
+        pos = case.get('pos', 0) % (len(case['others']) + 1)
+        cands = case['others'][:pos] + [case['cand']] + case['others'][pos:]
+        out.label('several-events-candidate-' + (
+            'last' if pos == len(case['others']) else 'not-last'))
     c = case['cand']
-    t = ('None' if c['time'] is None
-         else 'datetime.time({}, {}, {})'.format(*c['time']))
-    day = ('None' if c['day'] is None
-           else 'datetime.date({}, {}, {})'.format(*c['day']))
+
+    def moment(m):
+        t = ('None' if m['time'] is None
+             else 'datetime.time({}, {}, {})'.format(*m['time']))
+        day = ('None' if m['day'] is None
+               else 'datetime.date({}, {}, {})'.format(*m['day']))
+        return (f'dawgie.EVENT(dawgie.ALG_REF(task, Impl()), dawgie.MOMENT('
+                f'{m["boot"]!r}, {day}, {m["dom"]!r}, {m["dow"]!r}, {t}))')
+
     src = (
         'import datetime\nimport dawgie\n\n\n'
         'class Impl:\n    def name(self):\n        return "alg"\n\n\n'
         'def task(prefix=None, ps_hint=0, runid=-1, target="__none__"):\n'
         '    return None\n\n\ndef events():\n'
-        f'    return [dawgie.EVENT(dawgie.ALG_REF(task, Impl()), '
-        f'dawgie.MOMENT({c["boot"]!r}, {day}, {c["dom"]!r}, {c["dow"]!r}, '
-        f'{t}))]\n'
+        '    return [' + ', '.join(moment(m) for m in cands) + ']\n'
     )
     root = world.fresh_dir('c20pkg')
     _CAND_SEQ[0] += 1
@@ -332,7 +344,7 @@ def exec_accepted(case):
             out.nontrivial = True
             out.label('malformed-candidate')
         if ok:
-            ev = importlib.import_module(name).events()[0]
+            ev = importlib.import_module(name).events()[pos]
             in_range = ((c['dom'] is None or 1 <= c['dom'] <= 31)
                         and (c['dow'] is None or 0 <= c['dow'] <= 6))
             for now in case['nows']:
@@ -369,8 +381,18 @@ _cand = st.fixed_dictionaries({
     'dow': st.sampled_from([None, None, None, 0, 3, 6, '2']),
     'time': st.one_of(st.none(), _time),
 })
+_good = st.one_of(
+    st.fixed_dictionaries({'boot': st.none(), 'day': st.none(),
+                           'dom': st.none(), 'dow': st.integers(0, 6),
+                           'time': _time}),
+    st.fixed_dictionaries({'boot': st.none(), 'day': st.none(),
+                           'dom': st.sampled_from([1, 15, 28]),
+                           'dow': st.none(), 'time': _time}),
+)
 _accepted_case = st.fixed_dictionaries({
     'cand': _cand,
+    'others': st.one_of(st.just([]), st.lists(_good, min_size=1, max_size=2)),
+    'pos': st.integers(0, 2),
     'nows': st.lists(st.one_of(_now, _near_now()), min_size=2, max_size=4),
 })
 
@@ -548,7 +570,14 @@ _START_DAYS = [
 @st.composite
 def _histories(draw):
     spec = draw(engines.specs(max_algs=4, max_pkgs=2, events=True,
-                              feedback=False))
+                              feedback=False, twins=True))
+    for a in spec['algs']:
+        # twins both get events (classes of one name in two modules)
+        if a.get('twin') is not None:
+            for x in (a, spec['algs'][a['twin']]):
+                if not x['events']:
+                    x['events'] = draw(
+                        st.lists(engines._moment, min_size=1, max_size=2))
     # make sure there is at least one event, by construction
     if not any(a['events'] for a in spec['algs']):
         i = draw(st.integers(0, len(spec['algs']) - 1))
